@@ -3,8 +3,6 @@ package internal
 import (
 	"context"
 	"encoding/base64"
-	"errors"
-	"io"
 	"strings"
 	"time"
 
@@ -135,7 +133,9 @@ func StatsEndRPC(
 			BeginTime: beginTime,
 			EndTime:   time.Now(),
 		}
-		if appErr != nil && !errors.Is(appErr, io.EOF) {
+		// Only client streams end with io.EOF on success, and they report their
+		// End themselves: here any error, io.EOF included, is a failed RPC.
+		if appErr != nil {
 			end.Error = appErr
 		}
 		sh.HandleRPC(ctx, end)
